@@ -26,6 +26,8 @@ def run(ctx):
     b_return_channel(ctx)
     c_context(ctx)
     c_no_module_state(ctx)
+    a_single_evaluation(ctx)
+    a_reserved_names(ctx)
 
 
 def _fstring_dollar(e):
@@ -82,14 +84,31 @@ def a_positional(ctx):
                 break
         ok = isinstance(inner, ast.Name) and loop is not None and inner.id == loop.target.elts[0].id
         allowed_surplus = False
-        if not ok and fn.name == "_start_flow" and re.sub(r"\s", "", src(inner)) == "last_idx+1":
-            # the one allowed exception: the surplus test `${last_idx+1}` (first key beyond the declared parameters)
-            allowed_surplus = True
+        if not ok and fn.name == "_start_flow":
+            # the one allowed exception: the surplus test, i.e. the first key beyond the declared parameters: `${last_idx+1}` or `${len(<the enumerated list>)}`
+            txt = re.sub(r"\s", "", src(inner))
+            enumerated = [re.sub(r"\s", "", src(l.iter.args[0])) for l in ast.walk(fn) if isinstance(l, ast.For) and isinstance(l.iter, ast.Call) and src(l.iter.func) == "enumerate" and l.iter.args]
+            allowed_surplus = txt == "last_idx+1" or any(txt == "len(%s)" % e for e in enumerated)
         ctx.check("C08.a.positional-keys", SM, unit, "f\"${%s}\"" % src(inner), ok or allowed_surplus,
                   ("consumer key `$<%s>` is the zero-based index of `%s`, used without arithmetic" % (src(inner), src(loop.iter)) if ok else
                    "surplus test `${last_idx+1}`: the first key beyond the parameters consumed by the loop") if ok or allowed_surplus else
                   "consumer builds the positional key from `%s`, which is not a plain zero-based enumerate index: caller's $n and callee's $n no longer denote the same parameter" % src(inner),
                   line=n.lineno)
+    # ---- positional keys are resolved against the DECLARED parameter list (the bound-arguments dict also holds the keys $0, $1, ... themselves) ----
+    for fn, n, inner in cons:
+        for p in _anc(n, fn):
+            if isinstance(p, ast.For) and isinstance(p.iter, ast.Call) and src(p.iter.func) == "enumerate" and p.iter.args:
+                it = p.iter.args[0]
+                txt = src(it)
+                if isinstance(it, ast.Name):
+                    defs = [a for a in walk_no_nested(fn) if isinstance(a, ast.Assign) and src(a.targets[0]) == it.id]
+                    txt = src(defs[0].value) if defs else txt
+                ok = txt.endswith(".parameters")
+                ctx.check("C08.a.positional-keys", SM, fn.name, "enumerate(%s)" % src(it), ok,
+                          "positions are counted over the flow's declared parameters" if ok else
+                          "positions are counted over `%s`, which is not the declared parameter list (the bound-arguments dict also contains the positional keys): surplus positional arguments of a flow WITH parameters "
+                          "are not rejected but written into the context under bogus keys, and the caller hangs" % txt, line=p.lineno)
+                break
     # ---- binding order in create_flow_instance ----
     fn = find_function(sm, "create_flow_instance")
     if fn is None:
@@ -232,6 +251,87 @@ def _shadowed(fn, name):
     return False
 
 
+def a_single_evaluation(ctx):
+    """`each parameter receives exactly the value of the argument evaluated in the caller`: the argument expressions of a call may appear in ONE generated element only
+    (the StartFlow event).  The internal match on FlowStarted identifies the instance by flow_id + flow_instance_uid; if it repeated the argument expressions they would
+    be evaluated a second time, later, possibly to another value."""
+    t = ctx.tree.ast(EXP)
+    n = 0
+    for name in ("_expand_start_element", "_expand_activate_element"):
+        fn = find_function(t, name)
+        if fn is None:
+            raise AnalysisError("%s not found" % name, anchor=EXP + "::" + name)
+        for c in [c for c in ast.walk(fn) if isinstance(c, ast.Call) and src(c.func) == "Spec" and any(k.arg == "name" and "FLOW_STARTED" in src(k.value) for k in c.keywords)]:
+            n += 1
+            arg = [k.value for k in c.keywords if k.arg == "arguments"]
+            a = arg[0] if arg else None
+            if isinstance(a, ast.Name):
+                defs = [x for x in walk_no_nested(fn) if isinstance(x, ast.Assign) and src(x.targets[0]) == a.id]
+                upd = [x for x in walk_no_nested(fn) if isinstance(x, ast.Call) and isinstance(x.func, ast.Attribute) and src(x.func.value) == a.id and x.func.attr == "update"]
+                a_eff = defs[0].value if len(defs) == 1 and not upd else None
+            else:
+                a_eff = a
+            ok = isinstance(a_eff, ast.Dict) and all(isinstance(k, ast.Constant) and k.value in ("flow_id", "flow_instance_uid") for k in a_eff.keys) and len(a_eff.keys) == 2
+            ctx.check("C08.a.single-evaluation", EXP, name, "match FlowStarted(arguments=%s)" % (src(a)[:40] if a is not None else None), ok,
+                      "the FlowStarted match names only flow_id and flow_instance_uid; the call's argument expressions are evaluated once, for StartFlow" if ok else
+                      "the FlowStarted match repeats the call's argument expressions (`%s`): they are evaluated a second time after the callee has started - for `await bump $count` (callee changes the global) or "
+                      "`await f(uid())` the two values differ, the callee runs with the first and the caller waits forever" % (src(a)[:50] if a is not None else None), line=c.lineno)
+    ctx.floor("C08.a.single-evaluation", EXP, "generated FlowStarted matches", n, 2)
+
+
+def a_reserved_names(ctx):
+    """A declared parameter shares its name space with keys the runtime writes itself: the evaluation context (`_get_eval_context` adds fixed keys AFTER the flow's variables),
+    and the StartFlow/FlowStarted event arguments (flow_id, flow_instance_uid, context, ...).  A parameter with such a name cannot receive its argument; this must be excluded
+    when the flow is loaded."""
+    sm = ctx.tree.ast(SM)
+    ge = find_function(sm, "_get_eval_context")
+    if ge is None:
+        raise AnalysisError("_get_eval_context not found", anchor=SM + "::_get_eval_context")
+    reserved = set()
+    for c in ast.walk(ge):
+        if isinstance(c, ast.Call) and isinstance(c.func, ast.Attribute) and c.func.attr == "update" and src(c.func.value) == "context" and c.args and isinstance(c.args[0], ast.Dict):
+            for k in c.args[0].keys:
+                if isinstance(k, ast.Constant) and isinstance(k.value, str):
+                    reserved.add(k.value)
+    exp = ctx.tree.ast(EXP)
+    se = find_function(exp, "_expand_start_element")
+    for c in ast.walk(se):
+        if isinstance(c, ast.Call) and isinstance(c.func, ast.Attribute) and c.func.attr == "update" and "arguments" in src(c.func.value) and c.args and isinstance(c.args[0], ast.Dict):
+            for k in c.args[0].keys:
+                if isinstance(k, ast.Constant):
+                    reserved.add(k.value)
+    cfi = find_function(sm, "create_flow_instance")
+    for i in ast.walk(cfi):
+        if isinstance(i, ast.Compare) and isinstance(i.left, ast.Constant) and isinstance(i.ops[0], ast.In) and src(i.comparators[0]) == "event_arguments":
+            reserved.add(i.left.value)
+    if len(reserved) < 4:
+        raise AnalysisError("reserved runtime keys not recognised (%s)" % sorted(reserved), anchor=SM + "::_get_eval_context")
+    # is there a load-time validation of parameter names against (a superset of) these keys?
+    validated = set()
+    for rel in (RT2, "nemoguardrails/colang/v2_x/lang/transformer.py", SM):
+        t = ctx.tree.ast(rel)
+        for fn in functions(t):
+            txt = src(fn)
+            if "parameters" in txt and ("ColangSyntaxError" in txt or "raise" in txt):
+                for i in ast.walk(fn):
+                    if isinstance(i, ast.Compare) and any(isinstance(o, (ast.In, ast.NotIn)) for o in i.ops) and re.search(r"param\w*\.name|parameter\w*\.name", src(i.left)):
+                        for x in ast.walk(i.comparators[0]):
+                            if isinstance(x, ast.Constant) and isinstance(x.value, str):
+                                validated.add(x.value)
+                        if isinstance(i.comparators[0], ast.Name):
+                            for a in ast.walk(t):
+                                if isinstance(a, ast.Assign) and src(a.targets[0]) == i.comparators[0].id:
+                                    validated |= {x.value for x in ast.walk(a.value) if isinstance(x, ast.Constant) and isinstance(x.value, str)}
+    missing = sorted(reserved - validated)
+    ctx.check("C08.a.reserved-names", SM, "_get_eval_context", "parameter names vs. runtime keys %s" % sorted(reserved), not missing,
+              "flows declaring a parameter named like a runtime key are rejected when loaded" if not missing else
+              "nothing rejects a flow parameter named %s: `$system`/`$self` are overwritten by the evaluation context on every evaluation (the callee sees the runtime State / its own FlowState instead of the argument), "
+              "`$flow_id`/`$flow_instance_uid`/`$context` are overwritten by the start expansion or taken for the internal context-sharing request" % missing, line=ge.lineno)
+
+
+RT2 = "nemoguardrails/colang/v2_x/runtime/runtime.py"
+
+
 def _block_of(stmt):
     p = getattr(stmt, "_parent", None)
     for f in ("body", "orelse", "finalbody"):
@@ -266,19 +366,31 @@ def b_return_channel(ctx):
     k2 = None
     reads_k1 = False
     if fe is not None:
-        for i in [x for x in ast.walk(fe) if isinstance(x, ast.If)]:
-            if k1 is not None and repr(k1) in src(i.test) and "self.context" in src(i.test):
-                for s in i.body:
-                    if isinstance(s, ast.Assign) and isinstance(s.targets[0], ast.Subscript) and isinstance(s.targets[0].slice, ast.Constant) and src(s.value) == "self.context[%r]" % k1:
-                        k2 = s.targets[0].slice.value
-                        reads_k1 = True
+        for s_ in [x for x in ast.walk(fe) if isinstance(x, ast.Assign)]:
+            if k1 is not None and isinstance(s_.targets[0], ast.Subscript) and isinstance(s_.targets[0].slice, ast.Constant) and \
+                    re.sub(r"\s", "", src(s_.value)) in ("self.context[%r]" % k1, "self.context.get(%r)" % k1, "self.context.get(%r,None)" % k1):
+                k2 = s_.targets[0].slice.value
+                reads_k1 = True
     ctx.check("C08.b.return-channel", FLOWS, "FlowState.finished_event", "publishes the return value", reads_k1 and k2 is not None,
               "FlowFinished carries self.context[%r] as argument %r" % (k1, k2), line=(fe.lineno if fe else 1))
     # the await expansion reads .arguments.<K2>
     te = ctx.tree.ast(EXP)
     me = find_function(te, "_expand_match_element")
-    reads = [n for n in ast.walk(me) if isinstance(n, ast.JoinedStr) and ".arguments." in src(n)]
-    ok = bool(reads) and k2 is not None and all(src(r).rstrip("'\"").endswith(".arguments.%s" % k2) for r in reads)
+    reads = [n for n in ast.walk(me) if isinstance(n, ast.JoinedStr) and ".arguments" in src(n)]
+
+    def _reads_k2(r):
+        t_ = src(r).rstrip("'\"")
+        return t_.endswith(".arguments.%s" % k2) or re.search(r"\.arguments\.get\(\\?['\"]%s\\?['\"]\)$" % re.escape(str(k2)), t_) is not None or \
+            re.search(r"\.arguments\[\\?['\"]%s\\?['\"]\]$" % re.escape(str(k2)), t_) is not None
+    ok = bool(reads) and k2 is not None and all(_reads_k2(r) for r in reads)
+    # totality: the value is published only if a `return` ran; then the reader must tolerate its absence
+    conditional_publish = fe is not None and any(isinstance(i, ast.If) and k1 is not None and repr(k1) in src(i.test) for i in ast.walk(fe))
+    if ok and conditional_publish:
+        tolerant = all(".get(" in src(r) for r in reads)
+        ctx.check("C08.b.return-channel", EXP, "_expand_match_element", "reader tolerates a flow that ended without `return`", tolerant,
+                  "FlowFinished carries %r only if a `return` ran; the generated assignment reads it with .get(), so a flow that just reaches its end yields None" % k2 if tolerant else
+                  "FlowFinished carries %r only if a `return` statement ran, but the assignment generated for `$x = await flow` reads `.arguments.%s` unconditionally: awaiting a flow that simply reaches its end "
+                  "raises an evaluation error and STOPS THE CALLER (documented behaviour: None)" % (k2, k2), line=(reads[0].lineno if reads else me.lineno))
     ctx.check("C08.b.return-channel", EXP, "_expand_match_element", "await assignment reads the published argument", ok,
               "`$x = await flow` assigns `$<ref>.arguments.%s` of the matched Finished event" % k2, line=(reads[0].lineno if reads else me.lineno))
     # the await expander forwards return_var_name to the match on Finished
